@@ -50,6 +50,10 @@ func (m *model) mark(c uint64) {
 
 var deltas = []int64{-449, -448, -447, -65, -64, -63, -1, 0, 1, 63, 64, 65, 447, 448, 449, 511, 512, 513, 1000}
 
+// hugeJumps: forward jumps whose block distance is a multiple of 2^32 (plus a
+// few blocks): arithmetic narrower than 64 bits shows here and nowhere else.
+var hugeJumps = []uint64{1 << 38, 1<<38 + 64, 1<<38 + 192, 1<<38 + 7*64, 3 << 38, 1<<39 + 128, 1 << 32, 1<<32 + 64, 1<<44 + 320}
+
 type witness struct {
 	Start    uint64   `json:"start"`
 	History  []string `json:"history"`
@@ -234,8 +238,16 @@ func walk(r *vh.Runner, c *vh.Case, i, steps int) {
 			ctr = m.top + uint64(rng.Intn(130))
 		case k < 95: // block-sized forward jumps
 			ctr = m.top + uint64(rng.Pick(63, 64, 65, 127, 128, 447, 448, 449, 511, 512, 513, 1024))
-		case k < 98:
+		case k < 97:
 			ctr = m.top + uint64(rng.Intn(5000))
+		case k < 98:
+			// a huge jump (only once the ring holds something to go stale),
+			// followed by in-window counters on the next steps
+			if hj := hugeJumps[rng.Intn(len(hugeJumps))]; s > 600 && m.top < 1<<62 {
+				ctr = m.top + hj
+			} else {
+				ctr = m.top + 1
+			}
 		default: // far below
 			if m.top > 2000 {
 				ctr = m.top - uint64(600+rng.Intn(1400))
